@@ -138,11 +138,19 @@ pub fn append_rule(rule: Arc<Rule>) -> bool {
     let rule_map = RULE_MAP.lock().unwrap();
     let mut controller_map = CONTROLLER_MAP.lock().unwrap();
     if let Some(rules_of_res) = rule_map.get(&rule.resource) {
+        // `RULE_MAP` also records the invalid rules given to `load_rules`,
+        // which must stay ignored: only the valid ones are enforced
+        let mut valid_rules_of_res = HashSet::with_capacity(rules_of_res.len());
+        for r in rules_of_res {
+            if r.is_valid().is_ok() {
+                valid_rules_of_res.insert(Arc::clone(r));
+            }
+        }
         // `build_resource_*` moves the reused items out of the old list,
         // so the returned list has to replace the old one as a whole
         let new_tcs_of_res = build_resource_traffic_shaping_controller(
             &rule.resource,
-            rules_of_res,
+            &valid_rules_of_res,
             controller_map
                 .get_mut(&rule.resource)
                 .unwrap_or(&mut placeholder),
